@@ -378,7 +378,7 @@ pub fn check_link(case: &LinkCase) -> CaseResult {
 }
 
 pub fn run(c: &Ctx) {
-    c.set_rule("exhaustive: every (link position, target position) pair over paths of depth <=4 with the names {a,ab} (quick) / {a,ab,b} (thorough) — one name is a string prefix of another — (target additionally the root and the link's own directory), every feasible target kind {dir, file, missing, link->dir, link->file}, four spellings of the target (absolute, relative to the link's directory, both also unclean with './', '//' and trailing '/.'), on Memfs; a seeded 1/3 (quick) / 1/6 (thorough) of them on a tmpfs Stdfs sandbox with std::fs::read_link as independent observer. After symlink: readlink_abs == abs(target); readlink relative and clean(dir(link)/readlink) == target; is_symlink && !is_file && !is_dir; is_symlink_dir/file == kind of target at creation; readlink on non-links fails; entry accessors; follow(true) swaps once (idempotent), follow(false) never; symlink over the existing link with another target must fail and keep the target, whether the occupied path is spelled clean, with a 'zz/..' detour or with './' and a trailing separator; chmod/chown without follow on the link, and recursive chmod/chown without follow of the directory holding the link, leave an outside target's mode/owner alone; remove removes the link only. Non-trivial = link and target in different directories, or a relative spelling with at least one '..'; distinct by case.");
+    c.set_rule("exhaustive: every (link position, target position) pair over paths of depth <=4 with the names {a,ab} (quick) / {a,ab,b} (thorough) — one name is a string prefix of another — (target additionally the root and the link's own directory), every feasible target kind {dir, file, missing, link->dir, link->file}, four spellings of the target (absolute, relative to the link's directory, both also unclean with './', '//' and trailing '/.'), on Memfs; a seeded 1/3 (quick) / 1/6 (thorough) of them on a tmpfs Stdfs sandbox with std::fs::read_link as independent observer. After symlink: readlink_abs == abs(target); readlink relative and clean(dir(link)/readlink) == target; is_symlink && !is_file && !is_dir; is_symlink_dir/file == kind of target at creation; readlink on non-links fails; entry accessors; follow(true) swaps once (idempotent), follow(false) never; symlink over the existing link with another target must fail and keep the target, whether the occupied path is spelled clean, with a 'zz/..' detour or with './' and a trailing separator; chmod/chown without follow on the link, and recursive chmod/chown without follow of the directory holding the link, leave an outside target's mode/owner alone; remove removes the link only. Plus links in a sandbox directory whose targets lie under other top-level directories (/etc, /usr/bin, /etc/passwd, a missing top-level path, the root) or are missing names longer than a file name may be: still relative, still leading to the target, still links. Non-trivial = link and target in different directories, or a relative spelling with at least one '..'; distinct by case.");
     let names: &[&str] = c.tier.pick(&["a", "ab"][..], &["a", "ab", "b"][..]);
     let pos = positions(4, names);
     let mut cases: Vec<LinkCase> = vec![];
@@ -410,6 +410,77 @@ pub fn run(c: &Ctx) {
         }
     }
     c.note("memfs_cases", cases.len());
+    // targets far away from the link: under another top-level directory than the sandbox (existing system
+    // directories and files, a missing path), and missing targets whose names are longer than a file name can be
+    // (the target of a link is text: it need not be something the kernel could open)
+    {
+        let sb = crate::sandbox::root().join(format!("c10-far-{}", std::process::id()));
+        let sbs = sb.to_str().unwrap().to_string();
+        let long_ascii = "n".repeat(300);
+        let long_multi = "é".repeat(150);
+        let targets: Vec<(String, &str)> = vec![
+            ("/etc".into(), "dir"),
+            ("/usr/bin".into(), "dir"),
+            ("/etc/passwd".into(), "file"),
+            ("/rvh-no-such-top/x/y".into(), "missing"),
+            ("/".into(), "dir"),
+            (format!("{}/{}", sbs, long_ascii), "missing"),
+            (format!("{}/sub/{}/below", sbs, long_multi), "missing"),
+            (format!("/{}", long_ascii), "missing"),
+        ];
+        for stdfs in [true, false] {
+            for (t, kind) in &targets {
+                if !stdfs && *kind != "missing" && t != "/" {
+                    continue; // a fresh Memfs has no /etc
+                }
+                c.eval(1);
+                c.nontrivial(fp(&("far", stdfs, t)));
+                c.class(if stdfs { "far-target:stdfs" } else { "far-target:memfs" });
+                let backend = if stdfs { "stdfs" } else { "memfs" };
+                let v = if stdfs { Vfs::stdfs() } else { Vfs::memfs() };
+                let dir = format!("{}/sub/deeper", sbs);
+                let link = format!("{}/l", dir);
+                let res = catch(|| -> Result<(), Fail> {
+                    let fail = |what: &str, detail: String| Fail(Failure::new(format!("far-target|{}|target={},{}", what, kind, backend), format!("link {:?} -> {:?}: {}", link, t.chars().take(80).collect::<String>(), detail)));
+                    v.mkdir_p(&dir).map_err(|e| fail("setup", e.to_string()))?;
+                    let _ = v.remove(&link);
+                    v.symlink(&link, t).map_err(|e| fail("symlink-err", e.to_string()))?;
+                    if !v.is_symlink(&link) {
+                        return Err(fail("not-a-symlink-afterwards", String::new()));
+                    }
+                    let abs = v.readlink_abs(&link).map_err(|e| fail("readlink_abs-err", e.to_string()))?;
+                    if abs.to_str() != Some(t.as_str()) {
+                        return Err(fail("readlink_abs-value", format!("{:?}", abs)));
+                    }
+                    let rel = v.readlink(&link).map_err(|e| fail("readlink-err", e.to_string()))?;
+                    if rel.is_absolute() {
+                        return Err(fail("readlink-not-relative", format!("{:?}", rel.to_string_lossy().chars().take(80).collect::<String>())));
+                    }
+                    let nav = crate::refpath::ref_clean(&format!("{}/{}", dir, rel.to_str().unwrap_or("?")));
+                    if nav != *t {
+                        return Err(fail("readlink-does-not-lead-to-target", format!("dir(link)/readlink cleans to {:?}", nav.chars().take(120).collect::<String>())));
+                    }
+                    if stdfs {
+                        let disk = std::fs::read_link(&link).map_err(|e| fail("setup", e.to_string()))?;
+                        if disk != rel {
+                            return Err(fail("readlink-differs-from-disk", format!("{:?} vs {:?}", disk, rel)));
+                        }
+                    }
+                    v.entry(&link).map_err(|e| fail("entry-err", e.to_string()))?;
+                    v.paths(&dir).map_err(|e| fail("listing-the-links-directory-err", e.to_string()))?;
+                    v.remove(&link).map_err(|e| fail("remove-err", e.to_string()))?;
+                    Ok(())
+                });
+                let r = match res {
+                    Ok(Ok(())) => Ok(()),
+                    Ok(Err(f)) => Err(f.0),
+                    Err(p) => Err(Failure::new(format!("far-target|panic|{}", backend), p)),
+                };
+                c.judge("far-target", &json!([stdfs, t]), r);
+            }
+        }
+        let _ = std::fs::remove_dir_all(&sb);
+    }
     let den = c.tier.pick(3, 6);
     let mut all = cases.clone();
     for (i, cs) in cases.iter().enumerate() {
